@@ -7,6 +7,7 @@ package main
 import (
 	"fmt"
 	"go/ast"
+	"go/constant"
 	"go/token"
 	"go/types"
 	"sort"
@@ -1139,6 +1140,14 @@ func rulePrepareFresh(p *Program, r *Reporter) {
 							outputs[f] = x.Pos()
 						}
 					}
+					// a counter or a flag the compiler keeps in the evaluator
+					if n, f, ok := fieldOf(x.Addr); ok && n != nil && n.Obj().Name() == "Eval" {
+						if b, isBasic := x.Val.Type().Underlying().(*types.Basic); isBasic && b.Info()&(types.IsNumeric|types.IsBoolean|types.IsString) != 0 {
+							if _, seen := outputs[f]; !seen {
+								outputs[f] = x.Pos()
+							}
+						}
+					}
 				case *ssa.MapUpdate:
 					if u, ok := x.Map.(*ssa.UnOp); ok && u.Op == token.MUL {
 						if n, f, ok := fieldOf(u.X); ok && n != nil && n.Obj().Name() == "Eval" {
@@ -1187,7 +1196,7 @@ func rulePrepareFresh(p *Program, r *Reporter) {
 				}
 			}
 		}
-		r.Check(reset, key, p.Pos(compileCall.Pos()), "a store of an empty value dominates the compile call", "the compiler appends to / inserts into Eval."+f+" (at "+p.Pos(outputs[f])+") and Prepare does not empty it first: a second Prepare on the same evaluator compiles onto the first program")
+		r.Check(reset, key, p.Pos(compileCall.Pos()), "a store of an empty value dominates the compile call", "the compiler grows or updates Eval."+f+" (at "+p.Pos(outputs[f])+") and Prepare does not put it back to empty / zero first: a second Prepare on the same evaluator carries on from what the first left there, so the same script compiles to a different program")
 	}
 	prepareCoherent(p, r, a, outputs)
 }
@@ -1267,7 +1276,21 @@ func prepareCoherent(p *Program, r *Reporter, a *anchors, outputs map[string]tok
 func isFreshEmpty(v ssa.Value) bool {
 	switch x := v.(type) {
 	case *ssa.Const:
-		return x.IsNil()
+		if x.IsNil() {
+			return true
+		}
+		// the zero of a counter, a flag or a text
+		if x.Value != nil {
+			switch x.Value.Kind() {
+			case constant.Bool:
+				return !constant.BoolVal(x.Value)
+			case constant.Int, constant.Float:
+				return constant.Sign(x.Value) == 0
+			case constant.String:
+				return constant.StringVal(x.Value) == ""
+			}
+		}
+		return false
 	case *ssa.MakeMap:
 		return true
 	case *ssa.MakeSlice:
